@@ -206,10 +206,12 @@ class C02(Check):
     ENGINE = 'CRASH'
     RULE = ('write histories = the result log of a real in-process Experiment.run for each (shape, order of the triple list, record order, '
             'plain|.gz); shapes: S1 1 triple, S2 2 envs x 2 learners, S4 explicit list of 4 triples with a shared learner and two evaluators; '
-            'record order: as written, or the records after the preamble reversed (what a multi-process run may leave); fault positions = EVERY '
-            'byte-prefix length 0..|L| of the file (a case is a contiguous chunk of them); thorough: all 24 triple orders of S2 and S4, and second-level '
-            'crashes (every prefix of every resumed file of S1 that is not a prefix of L). A fault position is non-trivial when the prefix '
-            'ends inside a record (after at least one byte of it and before its newline / the end of its gzip member)')
+            'record order: as written, or the records after the preamble reversed / rotated by half (what a multi-process run may leave); fault '
+            'positions = EVERY byte-prefix length 0..|L| of the file (a case is a contiguous chunk of them); quick: 6 triple orders of S2 and 4 of S4, '
+            'reversed records for the first order; thorough: all 24 triple orders of S2 and S4 x 3 record orders, and second-level crashes (every prefix, '
+            'from the first changed byte on, of every resumed file of S1 and of S2 with reversed records that is not itself a prefix of L; identical '
+            'file contents are resumed once per case). A fault position is non-trivial when the prefix ends inside a record (after at least one byte '
+            'of it and before its newline / the end of its gzip member)')
     ASSUMPTIONS = [
         'crash model: a killed run leaves a byte-prefix of the append-only log (process kill; no page-cache reordering, no power loss)',
         'resumed runs are in-process (processes=1, maxchunksperchild=0, maxtasksperchunk=0); resuming with multi-process configurations is not explored here',
@@ -222,16 +224,20 @@ class C02(Check):
         'the version line may occur more than once in the final file (harmless); E/L/V/I records may not',
         'how often a triple that is NOT recorded is evaluated by the resumed run is not constrained (its rows must be right)',
         're-ordered logs are built from the real records of the real run, written through the real DiskSink(batch=1)',
+        'the mtime in gzip member headers and the clock read by SequentialCB(record=time) are pinned, so that the write history of a shape is one '
+        'byte string (checked: two uninterrupted runs must leave identical bytes); environments are a cheap deterministic harness environment, '
+        'learners and evaluators are real coba ones behind call-recording wrappers',
     ]
     TECHNIQUE = ('fault enumeration: every byte-prefix of the real transaction log (plain and .gz, several experiment shapes, triple orders and record '
                  'orders) is materialised, read with Result.from_file and resumed by a fresh identical Experiment.run with call-recording components; '
                  'result, evaluate calls and final file are compared with the uninterrupted run')
     LEVEL_TEXT = ('Every byte-prefix (between records and inside the record being written) of the result log of 3 experiment shapes x triple-list orders '
-                  'x 2 record orders x {plain, .gz} is resumed on the real code; thorough adds all 24 triple orders of the 4-triple shapes and second-level '
-                  'crashes of the smallest shape. The returned Result, the set of triples evaluated again and the ids in the final file are checked.')
+                  'x 2 (thorough 3) record orders x {plain, .gz} is resumed on the real code; thorough adds all 24 triple orders of the 4-triple shapes and '
+                  'second-level crashes (the resumed run is killed too). The returned Result, the set of triples evaluated again and the ids in the final '
+                  'file are checked against the uninterrupted run.')
     LEVEL_NOTE = ('in-process resume only; crash model = byte-prefix of the log (process kill); experiments of <=4 triples with <=4 interactions each; '
-                  'multi-process record orders are represented by triple-list permutations and one reversed record order, not enumerated')
-    MIN_NONTRIVIAL = {'quick': 5000, 'thorough': 50000}
+                  'multi-process record orders are represented by triple-list permutations and reversed / rotated record orders, not enumerated')
+    MIN_NONTRIVIAL = {'quick': 20000, 'thorough': 250000}
     CASE_TIMEOUT = 300
     RESUME_CONFIGS = [[1, 0, 0]]
 
@@ -249,13 +255,14 @@ class C02(Check):
                 for kind in ('plain', 'gz'):
                     for lines in ('asis', 'rev', 'rot'):
                         if quick and (lines == 'rot' or (lines == 'rev' and oi > 0)): continue
-                        yield {'shape': shape, 'order': order, 'lines': lines, 'kind': kind}
+                        h = {'shape': shape, 'order': order, 'lines': lines, 'kind': kind}
+                        if not quick and shape == 'S2' and oi == 0 and lines == 'rev': h['level2'] = True
+                        yield h
 
     def cases(self, tier):
         for h in self.histories(tier):
             for cfg in self.RESUME_CONFIGS:
                 n = {'S1': 6, 'S2': 16, 'S4': 24}[h['shape']] * (3 if h['kind'] == 'gz' else 2) // 2
-                if h.get('level2'): n *= 6
                 for i in range(n):
                     yield {**h, 'config': cfg, 'chunk': [i, n]}
 
@@ -346,15 +353,19 @@ class C02(Check):
         with open(path, 'wb') as f: f.write(data)
         found = []
 
-        def bad(key, what):
+        # exceptions are keyed with the exact kind of crash point; wrong results / repeated work only with the file kind and
+        # whether the file ends in a partial record (where the cut falls inside the file does not discriminate root causes there)
+        coarse = ('gz' if gz else 'plain') + (' file ending in a partial record' if a['tail'] else ' file of complete records')
+
+        def bad(key, what, fine=False):
             found.append(key)
-            acc.violation(f'{key}|{feature}', what, witness)
+            acc.violation(f'{key}|{feature if fine else coarse}', what, witness)
 
         try:
             # ---- (d) the truncated file is readable and shows what is complete in it
             st = self._load(path)
             if st[0] == 'exc':
-                bad(f'from_file|raises {type(st[1]).__name__}@{where_raised(st[1])} on the interrupted file', f'Result.from_file raised {st[1]!r}')
+                bad(f'from_file|raises {type(st[1]).__name__}@{where_raised(st[1])} on the interrupted file', f'Result.from_file raised {st[1]!r}', True)
             else:
                 snap = st[1]
                 for t in have['I']:
@@ -372,7 +383,7 @@ class C02(Check):
             st, val, calls = self._run(h, path, log, h.get('config') or (1, 0, 0))
             acc.count('resumed_runs')
             if st == 'exc':
-                bad(f'resume|Experiment.run raises {type(val).__name__}@{where_raised(val)}', f'Experiment.run on the interrupted file raised {val!r}')
+                bad(f'resume|Experiment.run raises {type(val).__name__}@{where_raised(val)}', f'Experiment.run on the interrupted file raised {val!r}', True)
                 acc.outcome((feature, 'run raised', type(val).__name__))
                 return None
             snap = val
@@ -381,7 +392,7 @@ class C02(Check):
                 d = table_diff(ref[name], snap[name])
                 if d: bad(f'result|{name} of the resumed run differ from the uninterrupted run ({d[0]})', f'{d[1]}; log: {[str(l)[:200] for l in log if "Experiment" not in str(l)][:2]}')
             if not same(ref['experiment'], snap['experiment']):
-                bad('result|experiment record of the resumed run differs from the uninterrupted run', f"{snap['experiment']} instead of {ref['experiment']}")
+                bad('result|experiment record of the resumed run differs from the uninterrupted run', f"{snap['experiment']} instead of {ref['experiment']}", True)
             # (b) nothing recorded is evaluated again
             again = [t for t in have['I'] if t in ids2tags and ids2tags[t] in calls]
             if again: bad('resume|triple with a complete record in the file is evaluated again', f'ids {again} recorded in the file, evaluate calls {calls}')
@@ -389,7 +400,7 @@ class C02(Check):
             with open(path, 'rb') as f: final = f.read()
             st = self._load(path)
             if st[0] == 'exc':
-                bad(f'file|Result.from_file of the resumed file raises {type(st[1]).__name__}', repr(st[1]))
+                bad(f'file|Result.from_file of the resumed file raises {type(st[1]).__name__}', repr(st[1]), True)
             else:
                 for name, _ in TABLES:
                     d = table_diff(snap[name], st[1][name])
@@ -417,6 +428,7 @@ class C02(Check):
             i, N = case['chunk']
             ks = range(i * (n + 1) // N, (i + 1) * (n + 1) // N)
         hkey = [h['shape'], h['order'], h['lines'], h['kind']]
+        seen2 = set()       # second-level file contents already resumed in this case (same bytes + same experiment = same execution)
         for k in ks:
             data = L[:k]
             feature = position(data, gz, complete=(k == n))
@@ -434,8 +446,11 @@ class C02(Check):
                 d2 = final[:k2]
                 if d2 == L[:k2]:
                     acc.count('second_level_prefixes_equal_to_a_first_level_prefix'); continue
+                if d2 in seen2:
+                    acc.count('second_level_prefixes_already_resumed_in_this_case'); continue
+                seen2.add(d2)
                 acc.count('second_level_prefixes')
-                f2 = 'second crash: ' + position(d2, gz)
+                f2 = position(d2, gz)          # same classes as first-level crash points: one root cause, one key (the witness carries k2)
                 if analyse(d2, gz)['tail']: acc.mark_nontrivial(hkey + [k, k2])
                 self.crash_point(h, d2, ref, acc, f2, {**base, 'k': k, 'k2': k2})
         return None
